@@ -25,10 +25,12 @@ import (
 
 	"github.com/ethereum/go-ethereum/crypto"
 
+	"github.com/vechain/thor/v2/block"
 	"github.com/vechain/thor/v2/genesis"
 	"github.com/vechain/thor/v2/packer"
 	"github.com/vechain/thor/v2/test/testchain"
 	"github.com/vechain/thor/v2/thor"
+	"github.com/vechain/thor/v2/trie"
 	"github.com/vechain/thor/v2/tx"
 	"github.com/vechain/thor/v2/txpool"
 
@@ -139,7 +141,9 @@ func (w *world) buildTx(op *Op) *tx.Transaction {
 		if base == nil {
 			base = big.NewInt(thor.InitialBaseFee)
 		}
-		b.MaxFeePerGas(new(big.Int).Add(new(big.Int).Mul(base, big.NewInt(2)), new(big.Int).SetUint64(op.Tip))).
+		_ = base
+		// a fee cap far above base fee + tip: the effective gas price then moves with the base fee
+		b.MaxFeePerGas(new(big.Int).Add(new(big.Int).Mul(big.NewInt(thor.InitialBaseFee), big.NewInt(300)), new(big.Int).SetUint64(op.Tip))).
 			MaxPriorityFeePerGas(new(big.Int).SetUint64(op.Tip))
 	} else {
 		b.GasPriceCoef(op.Coef)
@@ -438,6 +442,35 @@ func (w *world) apply(op *Op) (string, error) {
 	case "wash":
 		_, _, err := w.pool.VerifWash(false)
 		return "wash", err
+	case "basefee":
+		// a head whose base fee differs from its parent's (crafted directly into the repository: the pool only reads
+		// the best block summary; the state is the parent's state re-committed under the new block number)
+		best := w.chain.Repo().BestBlockSummary()
+		cur := best.Header.BaseFee()
+		if cur == nil {
+			return "wash", nil
+		}
+		mults := []int64{100, 40, 7, 2}
+		nb := new(big.Int).Mul(cur, big.NewInt(mults[op.N%len(mults)]))
+		if cur.Cmp(big.NewInt(thor.InitialBaseFee)) > 0 && op.N%2 == 1 {
+			nb = big.NewInt(thor.InitialBaseFee) // back to the floor
+		}
+		st := w.chain.Stater().NewState(best.Root())
+		stage, err := st.Stage(trie.Version{Major: best.Header.Number() + 1})
+		if err != nil {
+			return "wash", nil
+		}
+		root, err := stage.Commit()
+		if err != nil {
+			return "wash", nil
+		}
+		blk := new(block.Builder).ParentID(best.Header.ID()).StateRoot(root).TotalScore(best.Header.TotalScore() + 10).
+			Timestamp(best.Header.Timestamp() + 10).BaseFee(nb).GasLimit(best.Header.GasLimit()).Build()
+		if err := w.chain.Repo().AddBlock(blk, tx.Receipts{}, 0, true); err != nil {
+			return "wash", nil
+		}
+		_, _, err = w.pool.VerifWash(true)
+		return "wash", err
 	case "head":
 		// a new block with the first executables, then the wash housekeeping would run on a head change
 		execs := w.pool.Executables()
@@ -525,6 +558,9 @@ func genOp(r *hx.Rand, nGen int) Op {
 	case k < 90:
 		op.Kind = "wash"
 		return op
+	case k < 95:
+		op.Kind, op.N = "basefee", r.Intn(8)
+		return op
 	default:
 		op.Kind = "head"
 		return op
@@ -563,7 +599,7 @@ func genSeq(r *hx.Rand, n int) *SeqCase {
 	gen := 0
 	for i := 0; i < n; i++ {
 		op := genOp(r, gen)
-		if op.Kind != "wash" && op.Kind != "remove" && op.Kind != "head" {
+		if op.Kind != "wash" && op.Kind != "remove" && op.Kind != "head" && op.Kind != "basefee" {
 			gen++
 		}
 		sc.Ops = append(sc.Ops, op)
